@@ -51,13 +51,13 @@ def judge_repeat(ctx, cid, x, y, r, gx, gy, info, what="repeat"):
     gaps = np.diff(xf)
     for c in range(r):
         seg = gx[c * n:(c + 1) * n]
-        if np.max(np.abs(np.diff(seg) - gaps)) > rel * span:
+        if not np.max(np.abs(np.diff(seg) - gaps)) <= rel * span:
             ctx.violation(what + ":spacing_pattern_changed", cid, {"copy": c, "got_gaps": np.diff(seg), "want": gaps,
                                                                   "case": info})
             return False
         if c > 0:
             j = float(gx[c * n] - gx[c * n - 1])
-            if abs(j - last) > rel * span:
+            if not abs(j - last) <= rel * span:
                 ctx.violation(what + ":junction_step", cid, {"copy": c, "junction_gap": j, "last_step": last,
                                                              "first_step": float(xf[1] - xf[0]), "case": info})
                 return False
@@ -107,7 +107,7 @@ def run_case(ctx, kind_, idx):
                 ctx.monitor("c12:composition")
                 span = float(x3[-1] - x3[0]) if len(x3) > 1 else 1.0
                 rel = 1e-9 + 64 * tol.EPS * float(np.max(np.abs(x3))) / max(float(np.min(np.diff(x))), 1e-300)
-                if x2.shape != x3.shape or np.max(np.abs(x2 - x3)) > rel * max(span, float(np.max(np.abs(x3)))) \
+                if x2.shape != x3.shape or not np.max(np.abs(x2 - x3)) <= rel * max(span, float(np.max(np.abs(x3)))) \
                         or not np.array_equal(y2, y3):
                     ctx.violation("composition", cid, {"max_dx": float(np.max(np.abs(x2 - x3))) if x2.shape == x3.shape else None,
                                                        "case": info})
